@@ -150,3 +150,104 @@ func builderInstrFuncs(builder *ssa.Function) []*ssa.Function {
 	}
 	return out
 }
+
+// popEvent: one operand taken off the stack by an instruction, in the order
+// taken.  val is the value as the instruction sees it (the call itself, or
+// the result of the helper that did the popping for it); nil when the helper
+// does not hand the popped value straight back.
+type popEvent struct {
+	val  ssa.Value
+	kind *ssa.Function // the pop routine (popNumber, popBool, …)
+	at   *ssa.Call
+}
+
+// popEvents lists the pops of fn's entry block in order, looking into
+// single-block helpers of the module that are handed the pop routine (a
+// method value) or call it themselves.  ok is false when a pop sits outside
+// the entry block or in a helper that cannot be read this way.
+func popEvents(w *World, fn *ssa.Function, pops map[*ssa.Function]bool) (evs []popEvent, ok bool) {
+	sym := NewSym(w)
+	ok = true
+	popOf := func(cc *ssa.CallCommon, ctx *symCtx) *ssa.Function {
+		if g := cc.StaticCallee(); g != nil {
+			if pops[g] {
+				return g
+			}
+			return nil
+		}
+		if cc.IsInvoke() {
+			return nil
+		}
+		for _, g := range funcValues(sym.Resolve(cc.Value, ctx), 0) {
+			// a method value: the wrapper stands for the method
+			if m, isF := g.Object().(*types.Func); isF {
+				if real := w.SSA().FuncValue(m); real != nil && pops[real] {
+					return real
+				}
+			}
+			if pops[g] {
+				return g
+			}
+		}
+		return nil
+	}
+	for _, b := range fn.Blocks {
+		for _, in := range b.Instrs {
+			c, isC := in.(*ssa.Call)
+			if !isC {
+				continue
+			}
+			if k := popOf(&c.Call, nil); k != nil {
+				if b != fn.Blocks[0] {
+					ok = false
+				}
+				evs = append(evs, popEvent{c, k, c})
+				continue
+			}
+			h := c.Call.StaticCallee()
+			if h == nil || h.Blocks == nil || !strings.HasPrefix(pkgPathOf(h), modPath) {
+				continue
+			}
+			nctx := &symCtx{call: c}
+			var inner []*ssa.Call
+			var kinds []*ssa.Function
+			for _, hb := range h.Blocks {
+				for _, hin := range hb.Instrs {
+					if hc, isHC := hin.(*ssa.Call); isHC {
+						if k := popOf(&hc.Call, nctx); k != nil {
+							inner = append(inner, hc)
+							kinds = append(kinds, k)
+						}
+					}
+				}
+			}
+			if len(inner) == 0 {
+				continue
+			}
+			if len(h.Blocks) != 1 || b != fn.Blocks[0] {
+				ok = false
+			}
+			ret, _ := h.Blocks[len(h.Blocks)-1].Instrs[len(h.Blocks[len(h.Blocks)-1].Instrs)-1].(*ssa.Return)
+			for i, hc := range inner {
+				var val ssa.Value
+				if ret != nil {
+					for ri, rv := range ret.Results {
+						if unspill(rv) != ssa.Value(hc) {
+							continue
+						}
+						if len(ret.Results) == 1 {
+							val = c
+						}
+						for _, ref := range *c.Referrers() {
+							if ex, isEx := ref.(*ssa.Extract); isEx && ex.Index == ri {
+								val = ex
+							}
+						}
+					}
+				}
+				evs = append(evs, popEvent{val, kinds[i], c})
+			}
+		}
+	}
+	return evs, ok
+}
